@@ -795,3 +795,66 @@ $GEN{$NG(a int)}{int}{
 	$RET
 }`, entries: []*Entry{drive("$NG", "int", 1, nil)}},
 }
+
+// ---- C18: panics raised by the evaluation of a returned expression -----------------------------------
+
+var panicShapes = []shape{
+	{name: "return-indexed-iterator-out-of-range", tags: []string{"panic"}, decls: `
+$GEN{$NOne(a int)}{int}{
+	$YIELD{a}
+	$RET
+}
+
+$GEN{$NG(a int)}{int}{
+	alts := []$ITER{int}{$NOne(1)}
+	tr.Ev(1, a, len(alts))
+	$YIELD{a}
+	if a > 1 {
+		tr.Ev(2)
+		$SONLY{return alts[a]}$RONLY{_ = alts[a]; return}
+	}
+	$YIELD{a + 10}
+	$RET
+}
+
+$GEN{$NOuter(a int)}{int}{
+	$YIELD{100}
+	$YFROM{$NG(a)}
+	$YIELD{200}
+	$RET
+}`, entries: []*Entry{drive("$NG", "int", 1, nil), drive("$NOuter", "int", 1, nil)}},
+	{name: "return-field-of-nil-pointer", tags: []string{"panic"}, decls: `
+type $NH struct{ Rest $ITER{int} }
+
+$GEN{$NG(a int)}{int}{
+	var h *$NH
+	if a == 0 {
+		h = &$NH{}
+	}
+	tr.Ev(3, h == nil)
+	$YIELD{7}
+	switch {
+	case a < 3:
+		$YIELD{8}
+		$SONLY{return h.Rest}$RONLY{_ = h.Rest; return}
+	}
+	$YIELD{9}
+	$RET
+}`, entries: []*Entry{drive("$NG", "int", 1, nil)}},
+	{name: "return-call-that-panics", tags: []string{"panic"}, decls: `
+func $NBoom(a int) $ITER{int} {
+	if a > 0 {
+		panic(tr.Str(a))
+	}
+	return nil
+}
+
+$GEN{$NG(a int)}{int}{
+	$YIELD{1}
+	if a != 2 {
+		$SONLY{return $NBoom(a)}$RONLY{_ = $NBoom(a); return}
+	}
+	$YIELD{2}
+	$RET
+}`, entries: []*Entry{drive("$NG", "int", 1, nil)}},
+}
